@@ -3,6 +3,7 @@ package props
 import (
 	"context"
 	"fmt"
+	"strings"
 	"sync"
 	"time"
 
@@ -163,14 +164,18 @@ func (c18) closeAt(sc core.Scenario, r *core.R) {
 	}
 	sub := func(ctx context.Context) {
 		t := Tok("s")
-		ch, err := cl.Sub(ctx, t, 0, svc.SInfinite)
-		if err != nil || ch == nil {
-			return
-		}
-		g := drainItems(ch, 50*time.Microsecond, -1, nil)
-		mu.Lock()
-		gots = append(gots, g)
-		mu.Unlock()
+		o := add(Go(t, func() (string, error) {
+			ch, err := cl.Sub(ctx, t, 0, svc.SInfinite)
+			if err != nil || ch == nil {
+				return "", err
+			}
+			g := drainItems(ch, 50*time.Microsecond, -1, nil)
+			mu.Lock()
+			gots = append(gots, g)
+			mu.Unlock()
+			return "", nil
+		}))
+		o.Wait(core.Grace)
 	}
 	step := func(os ...*Outcome) {
 		for _, o := range os {
@@ -237,7 +242,7 @@ func (c18) closeAt(sc core.Scenario, r *core.R) {
 		if !o.Wait(core.Grace) {
 			blockedN++
 			r.Violate("call-blocked-after-close", "%s: call %s is still blocked after the closer returned; events: %s", where, o.Tok, core.Log.Tail(40))
-		} else if o.Err == nil && o.Val != "" && o.Val != svc.Reply(o.Tok) && len(o.Val) < 100 {
+		} else if o.Err == nil && o.Val != "" && o.Val != svc.Reply(o.Tok) && len(o.Val) < 100 && !strings.HasPrefix(o.Tok, "Tsx") {
 			r.Violate("foreign-result", "%s: call %s returned %q", where, o.Tok, o.Val)
 		}
 	}
